@@ -2,6 +2,7 @@
 from __future__ import annotations
 
 import asyncio
+import contextlib
 import itertools
 import json
 from typing import Any, Dict, List, Optional, Tuple
@@ -232,8 +233,11 @@ def gen_cases(ctx):
         yield [{"req": "request", "id": "a", "beh": b}, {"req": "request", "id": "b", "beh": ok}]
     # session sequences
     for seq in itertools.product([None, "S1", "S2"], repeat=3):
-        yield [{"req": "request", "id": i, "beh": {"status": 200, "ctype": "json", "body": "response", "session": s}}
-               for i, s in enumerate(seq)] + [{"req": "notification", "beh": {"status": 202, "ctype": None, "body": "empty"}}]
+        base = [{"req": "request", "id": i, "beh": {"status": 200, "ctype": "json", "body": "response", "session": s}}
+                for i, s in enumerate(seq)] + [{"req": "notification", "beh": {"status": 202, "ctype": None, "body": "empty"}}]
+        yield base
+        # the same with a second transport to another endpoint alive in the process, holding its own session
+        yield [dict(base[0], twin=True)] + base[1:]
     yield [{"req": "request", "id": 1, "beh": ok, "initial_session": "PRESET"},
            {"req": "request", "id": 2, "beh": {"status": 200, "ctype": "json", "body": "response", "session": "NEW"}},
            {"req": "request", "id": 3, "beh": {"status": 500, "ctype": "other", "body": "nonjson"}},
@@ -260,6 +264,8 @@ def gen_cases(ctx):
                 if rng.random() < 0.3 and "exc" not in b and b.get("status", 200) < 400:
                     b["session"] = rng.choice(["S1", "S2", "S3"])
                 seq.append({"req": "request", "id": rng.choice(REQ_IDS), "beh": b})
+        if rng.random() < 0.25:
+            seq[0] = dict(seq[0], twin=True)
         yield seq
 
 
@@ -324,6 +330,16 @@ def exec_case(ctx, seq: List[Dict[str, Any]]) -> None:
     state = {"i": 0, "pending_redirect": None}
 
     def handler(request: httpx.Request, rec):
+        if request.url.host == "twin.test":
+            rec["twin"] = True
+            if request.method != "POST":
+                return httpx.Response(405)
+            state["twin_n"] = state.get("twin_n", 0) + 1
+            body = rec["body"] or {}
+            return httpx.Response(200, headers={"content-type": "application/json",
+                                                "mcp-session-id": f"TWIN-{state['twin_n']}"},
+                                  content=json.dumps({"jsonrpc": "2.0", "id": body.get("id"),
+                                                      "result": {"twin": state["twin_n"]}}).encode())
         if request.method != "POST":
             return httpx.Response(405)
         if state["pending_redirect"] is not None:
@@ -355,7 +371,22 @@ def exec_case(ctx, seq: List[Dict[str, Any]]) -> None:
         wires = []
         with ScriptedHTTP(handler) as http:
             params = StreamableHTTPParameters(url=URL, timeout=5.0, session_id=seq[0].get("initial_session"))
-            async with http_client(params) as (read, write):
+            twin_got: List[Any] = []
+            async with contextlib.AsyncExitStack() as stack:
+                twin_rw = None
+                if seq[0].get("twin"):
+                    twin_rw = await stack.enter_async_context(http_client(
+                        StreamableHTTPParameters(url="http://twin.test/mcp", timeout=5.0, session_id="TWIN-0")))
+
+                    async def twin_drain():
+                        try:
+                            async for m in twin_rw[0]:
+                                twin_got.append(m)
+                        except Exception:
+                            pass
+                    twin_task = asyncio.create_task(twin_drain())
+                    stack.callback(twin_task.cancel)
+                read, write = await stack.enter_async_context(http_client(params))
                 got: List[Any] = []
 
                 async def drain():
@@ -382,12 +413,15 @@ def exec_case(ctx, seq: List[Dict[str, Any]]) -> None:
                     for k, step in enumerate(seq):
                         per_step.append(list(got))
                 else:
-                    for msg in msgs:
+                    for k, msg in enumerate(msgs):
                         before = len(got)
+                        if twin_rw is not None:
+                            await twin_rw[1].send(create_request("ping", None, id=f"twin-{k}"))
                         await write.send(msg)
                         await asyncio.sleep(0.5)
                         per_step.append(list(got[before:]))
                 dt.cancel()
+            state["twin_got"] = twin_got
             return per_step, wires, list(http.requests)
 
     try:
@@ -400,6 +434,19 @@ def exec_case(ctx, seq: List[Dict[str, Any]]) -> None:
         ctx.violation("transport_crashed", f"transport raised {e!r}", case)
         ctx.record(case, shape="crash")
         return
+    if seq[0].get("twin"):
+        tposts = [r for r in requests if r.get("twin") and r["method"] == "POST"]
+        ctx.count("twin_posts", len(tposts))
+        for j, p in enumerate(tposts):
+            sent = p["headers"].get("mcp-session-id")
+            if sent != f"TWIN-{j}":
+                ctx.violation("session_shared_between_transports", f"second transport's POST #{j} carried "
+                              f"Mcp-Session-Id={sent!r}, its own latest is 'TWIN-{j}'", case)
+        tg = [norm_any(m) for m in state.get("twin_got", [])]
+        want = [("response", tagged(f"twin-{j}")) for j in range(len(tposts))]
+        if [g[:2] for g in tg] != want or len(tposts) != len(seq):
+            ctx.violation("second_transport_disturbed", f"second transport sent {len(tposts)} POSTs for {len(seq)} requests "
+                          f"and read {[g[:2] for g in tg]!r}", case)
     posts = [r for r in requests if r["method"] == "POST" and "step" in r]
     ctx.count("posts", len(posts))
     shape = []
